@@ -233,6 +233,21 @@ class OptimizeAnalysis:
                 return {1: "$last", 2: "$last2"}.get(idx.operand.value)
         return None
 
+    def index_from_loopvar(self, e):
+        """<ret>.iteration_results[<loop var> - k] -> ("loopvar", k);  [<loop bound> - k] -> ("bound", k);  else None"""
+        if not (isinstance(e, ast.Subscript) and isinstance(e.value, ast.Attribute) and e.value.attr == "iteration_results"
+                and isinstance(e.value.value, ast.Name) and e.value.value.id == self.ret_var):
+            return None
+        idx = e.slice
+        k = 0
+        if isinstance(idx, ast.BinOp) and isinstance(idx.op, ast.Sub) and isinstance(idx.right, ast.Constant) and isinstance(idx.right.value, int):
+            idx, k = idx.left, idx.right.value
+        if isinstance(idx, ast.Name) and idx.id == self.loop_var:
+            return ("loopvar", k)
+        if ast.dump(idx) == ast.dump(self.loop_bound):
+            return ("bound", k)
+        return None
+
     def transfer(self, n, s, label):
         cfg = self.cfg
         st, kind = cfg.stmt[n], cfg.kind[n]
